@@ -1,4 +1,5 @@
 import ShroudVerif.Lemmas.DeclRound
+import ShroudVerif.Lemmas.DeclMeaning
 import ShroudVerif.Gen.DeclTables
 /-!
 # C09  Declarations are understood as a C++ compiler understands them
@@ -14,9 +15,15 @@ empty declarator `()`, functions with an abstract declarator and the parameter
 list consisting of the single `void`.  Attribute text is kept as its token list
 (the code keeps the concatenated text, so inter-token spacing is a normalisation).
 
-NOT proved (no Lean statement; covered by the implementation oracle only): agreement
-with an independent C++ reference semantics (`cxxMeaning`, clauses 1 and 2).  The
-g++ `is_same` oracle in `tools/props/c09.py` checks those clauses on generated inputs.
+Clauses (1)/(2), reference semantics (`Model/CxxMeaning.lean`: `cxxMeaning`, written from the
+C++ declarator grammar, independent of the parser model; `denote`): proved here for Shroud's own
+`gen_decl` rendering on the domain `WF ∧ RP` (`denote_toks`, `parse_agrees_with_cxx_partial`),
+under the hypothesis `BaseAgrees env` (the typemap selected for a built-in specifier multiset has
+the C++ type the standard gives that multiset; checked exhaustively for the extracted environment
+by the harness through the driver op `fund`, not in Lean).  `cxxMeaning` itself is validated
+against g++ on generated declarations (driver op `meaning`, `is_same` oracle).
+NOT proved: the same statements for the `gen_arg_as_cxx` / `gen_arg_as_c` token renderings
+(`argToks`, `toC`); those are covered by the g++/gcc oracle only.
 -/
 namespace Shroud.Decl
 
@@ -40,6 +47,47 @@ theorem roundtrip_prefix_partial (env : Env) (hv : EnvVoid env) (d : Decl) (wf :
     (rest : Toks) (hrest : DeclFollow rest) (m : Nat) (hm : m ≥ d.toks.length + 8) :
     declaration env (m + 1) (d.toks ++ rest) = .ok (d, rest) :=
   roundtrip_all env hv d wf rest m hrest hm
+
+/-! ### (1)/(2) agreement with the reference C++ semantics -/
+
+open Shroud.Cxx in
+/-- **Shroud's rendering of `d` means `d`'s type.**  Read by the reference C++ semantics, the
+    token list of `gen_decl d` declares the name of `d` with the type `d` denotes (typemap's
+    C++ type, cv at every level, pointer/reference chain, array bounds, parameter types). -/
+theorem denote_toks (env : Env) (hb : BaseAgrees env) (d : Decl) (wf : WF env d) (rp : RP d) :
+    ∃ T, denote env d = some T ∧ cxxMeaning env d.toks = some (declName d, T) := by
+  obtain ⟨s, dr, params, fc, arr, attrs, init⟩ := d
+  have hinit : init = none := by simp only [WF] at wf; exact wf.2.2.2.2.2.1
+  subst hinit
+  have ih : ∀ ps, params = some ps → ∀ p ∈ ps, WF env p → RP p → MT env p :=
+    fun _ _ p _ hw hr => meaning_all env hb p hw hr
+  obtain ⟨acc, b, ops, h1, h2, h3, h4, h5⟩ := declFacts env hb s dr params fc arr attrs []
+    (4 * (Decl.mk s dr params fc arr attrs none).toks.length + 16) wf rp ih trivial (by omega)
+  refine ⟨_, h3, ?_⟩
+  simp only [List.append_nil] at h1 h4 h5
+  unfold cxxMeaning
+  simp only [h1, h2, h4, h5]
+  simp [declName]
+
+open Shroud.Cxx in
+/-- the parameter form: followed by `,` or `)` the rendering is read as a parameter of that type -/
+theorem denote_toks_param (env : Env) (hb : BaseAgrees env) (d : Decl) (wf : WF env d) (rp : RP d)
+    (rest : Toks) (hrest : DeclFollow rest) (n : Nat) (hn : n ≥ 4 * d.toks.length + 12) :
+    ∃ T, denote env d = some T ∧ cxxParam env n (d.toks ++ rest) = some (T, rest) :=
+  meaning_all env hb d wf rp rest n hrest hn
+
+open Shroud.Cxx in
+/-- **(1) the parser agrees with C++** on canonical token lists (`_partial`: the lists are the
+    `gen_decl` renderings of `WF ∧ RP` declarations, which cover every modelled declaration shape
+    up to spelling; arbitrary accepted lists are covered by the tie and the g++ oracle). -/
+theorem parse_agrees_with_cxx_partial (env : Env) (hv : EnvVoid env) (hb : BaseAgrees env) (d : Decl)
+    (wf : WF env d) (rp : RP d) :
+    (match parse env d.toks with
+      | .ok d' => (denote env d').map (fun T => (declName d', T))
+      | _ => none) = cxxMeaning env d.toks := by
+  rw [roundtrip_partial env hv d wf]
+  obtain ⟨T, h1, h2⟩ := denote_toks env hb d wf rp
+  simp [h1, h2]
 
 /-! ### non-vacuity: concrete well-formed declarations in the environment extracted from Shroud -/
 
@@ -82,6 +130,30 @@ example : parse defaultEnv exVar.toks = .ok exVar := by rfl
 
 open Shroud.Gen.DeclTables in
 example : parse defaultEnv exFun.toks = .ok exFun := by rfl
+
+open Shroud.Gen.DeclTables Shroud.Cxx in
+/-- `const unsigned long * const * volatile & x[3][n]`: array 3 of array n of reference to
+    volatile pointer to const pointer to const unsigned long -/
+example : cxxMeaning defaultEnv exVar.toks
+    = some (some (sp "x"), .arr (sp "3") (.arr (sp "n") (.ref (.ptr false true (.ptr true false
+        (.base true false (.fund (sp "unsigned long")))))))) := by rfl
+
+open Shroud.Gen.DeclTables Shroud.Cxx in
+example : denote defaultEnv exVar = (cxxMeaning defaultEnv exVar.toks).map (·.2) := by rfl
+
+open Shroud.Gen.DeclTables Shroud.Cxx in
+/-- `static size_t (*f)(const char * name, int n) const`: pointer to function -/
+example : cxxMeaning defaultEnv exFun.toks
+    = some (some (sp "f"), .ptr false false (.func (.base false false (.named (sp "size_t")))
+        [.ptr false false (.base true false (.fund (sp "char"))), .base false false (.fund (sp "int"))] true)) := by rfl
+
+open Shroud.Cxx in
+example : RP exVar := by
+  refine ⟨?_, trivial⟩
+  intro d h; cases h
+  intro p hp hk
+  simp at hp
+  rcases hp with rfl | rfl | rfl <;> simp at hk ⊢
 
 example : genDecl exVar = "const unsigned long * const * volatile & x[3][n] +dimension(size(n))+intent(in)".toList := by decide
 example : genDecl exFun = "static size_t ( * f)(const char * name +intent(in), int n) const".toList := by decide
